@@ -213,6 +213,18 @@ def run(tier):
     extra += [c for c in X + R if c not in A and c not in extra]
     SP = spelled_calls()
     extra += [c for c in SP if c not in A and c not in extra]
+    # the schema files below json/definitions (one of them is not a valid schema itself): checked, and used as the schema of a document
+    DEFS = []
+    dd = os.path.join(common.REPO, 'json', 'definitions')
+    if os.path.isdir(dd):
+        for f in sorted(os.listdir(dd)):
+            if f.endswith('.json'):
+                for ef in (False, True):
+                    DEFS.append(('sv', 'json/definitions/' + f, 'Draft4Validator', ef))
+                    for d in (first_sample('performance'), first_sample('athlete')):
+                        if d:
+                            DEFS.append(('va', d, 'json/definitions/' + f, ef))
+    extra += [c for c in DEFS if c not in A and c not in extra]
     # ---- reference outcomes from fresh processes
     fr = hist.fresh_outcomes(A + extra, [common.REPO, '/'])
     fresh = {}
@@ -284,6 +296,22 @@ def run(tier):
     go('ordered pairs with a schema named in another spelling', work, [('pair', spp[i::64]) for i in range(64)])
     spt = [[a, b, c] for a in SP[::3] for b in SP[1::3] for c in SP[2::3]]
     go('triples over schema names in other spellings', work, [('triple', spt[i::32]) for i in range(32)])
+    # ---- the definitions schemas: alone, every ordered pair on the same file, and the a-a-b / a-b-a triples on the same file
+    go('definitions schemas alone', work, [('single', [[c] for c in DEFS[i::8]]) for i in range(8)])
+    sf = lambda c: c[1] if c[0] == 'sv' else c[2]
+    dp = [[a, b] for a in DEFS for b in DEFS if sf(a) == sf(b)]
+    dt = [[a, a, b] for a, b in dp] + [[a, b, a] for a, b in dp if a != b]
+    go('ordered pairs and triples of calls on one definitions schema', work, [('pair', (dp + dt)[i::32]) for i in range(32)])
+    # ---- several failing documents of one schema one after the other (whatever counts or remembers failures per schema): every order of the invalid
+    #      samples of a schema (expect_failure False), then each once more
+    import itertools as _it
+    perms = []
+    for sname in SCHEMAS:
+        inv = [c for c in A if c[0] == 'va' and c[2] == 'json/%s.json' % sname and 'invalid' in c[1] and not c[3]]
+        for p_ in _it.islice(_it.permutations(inv), 120):
+            if len(p_) >= 2:
+                perms.append(list(p_) + [p_[0]])
+    go('every order of the invalid samples of a schema, then the first again', work, [('perm', perms[i::32]) for i in range(32)])
     # ---- a change of working directory between two calls (every fresh outcome was shown above to be the same from both directories)
     cdp = [[a, ('cd', '/'), b] for a, b in pairs if not (a[3] or b[3])] + [[('cd', '/'), a, ('cd', common.REPO), b] for a, b in pairs if not (a[3] or b[3])]
     if tier == 'quick':
